@@ -111,7 +111,11 @@ def impl_run(grid, direction, nsampling, xi0, p, eps, x, seeds):
         warnings.simplefilter("ignore")
         m.response()
         y = np.array(m.sig_out[0].state, dtype=np.float64).copy()
-        out = {"direction": [float(v) for v in m.direction], "y": y, "smax": np.array(m.smax).copy(),
+        # the SAME network evaluated once more (the caller has not touched the design signal in between): the result is again
+        # the scheme applied to the design, i.e. the same field
+        m.response()
+        y_again = np.array(m.sig_out[0].state, dtype=np.float64).copy()
+        out = {"direction": [float(v) for v in m.direction], "y": y, "y_again": y_again, "smax": np.array(m.smax).copy(),
                "q": float(m.q), "shift": float(m.shift), "backshift": float(m.backshift), "dx": [], "seed_mutated": False,
                "nsampling": int(m.nsampling)}
         for sd in seeds:
@@ -202,6 +206,10 @@ def oracle_case(ctx, case, out):
     tol = 1e-9 * max(1.0, float(np.abs(y).max()))
     if worst > tol:
         return f"element {where}: differs from smin(x, smax(supports in the previous layer)) by {worst:.3e}"
+    if "y_again" in out and not np.array_equal(out["y_again"], y):
+        e_ = int(np.abs(out["y_again"] - y).argmax())
+        return (f"a second response() of the same network (design signal not touched by the caller) gives another field: entry {e_} is "
+                f"{out['y_again'][e_]!r}, was {y[e_]!r} — not the scheme applied to the design")
     # overshoot
     ov = float((y - x).max())
     if ov > math.sqrt(eps) / 2 + 1e-12:
